@@ -386,6 +386,64 @@ theorem batchDelete_nothing {β : Type} (ks : List String) (m : List (String × 
     have : k ∈ ks.eraseDups.filter (fun k => alHas m k) := List.mem_filter.mpr ⟨hk', hh⟩
     rw [hnil] at this; cases this
 
+/-! ### in-place modification of metadata: keys and vectors are untouched -/
+
+theorem alModify_keys {β : Type} (m : List (String × β)) (k : String) (f : β → β) :
+    (alModify m k f).map (·.1) = m.map (·.1) := by
+  induction m with
+  | nil => rfl
+  | cons e es ih =>
+    simp only [alModify, List.map_cons] at ih ⊢
+    rw [ih]
+    by_cases h : (e.1 == k) = true <;> simp [h]
+
+theorem snapOf_alModify (items : Items) (k : String) (f : Item → Item)
+    (hf : ∀ it, (f it).repr = it.repr) : snapOf (alModify items k f) = snapOf items := by
+  induction items with
+  | nil => rfl
+  | cons e es ih =>
+    simp only [snapOf, alModify, List.map_cons] at ih ⊢
+    rw [ih]
+    by_cases h : (e.1 == k) = true
+    · simp [h, vecOf, hf]
+    · simp [h]
+
+theorem sameDims_of_snapOf_eq (a b : Items) (h : snapOf a = snapOf b) : sameDims a = sameDims b := by
+  cases a with
+  | nil =>
+    cases b with
+    | nil => rfl
+    | cons e r => simp [snapOf] at h
+  | cons e r =>
+    cases b with
+    | nil => simp [snapOf] at h
+    | cons e' r' =>
+      simp only [snapOf, List.map_cons, List.cons.injEq, Prod.mk.injEq] at h
+      obtain ⟨⟨_, hv⟩, hr⟩ := h
+      simp only [sameDims]
+      have e1 : r.all (fun x => (vecOf x.2).length == (vecOf e.2).length)
+          = (r.map (fun x => (x.1, vecOf x.2))).all (fun y => y.2.length == (vecOf e.2).length) := by
+        rw [List.all_map]; rfl
+      have e2 : r'.all (fun x => (vecOf x.2).length == (vecOf e'.2).length)
+          = (r'.map (fun x => (x.1, vecOf x.2))).all (fun y => y.2.length == (vecOf e'.2).length) := by
+        rw [List.all_map]; rfl
+      rw [e1, e2, hr, hv]
+
+theorem fresh_alModify (x : Coll) (k : String) (f : Item → Item) (hf : ∀ it, (f it).repr = it.repr)
+    (h : Fresh x) : Fresh ⟨alModify x.items k f, x.cache⟩ := by
+  intro s hs
+  obtain ⟨h1, h2⟩ := h s hs
+  refine ⟨?_, ?_⟩
+  · simp only [snapOf_alModify x.items k f hf]; exact h1
+  · rw [sameDims_of_snapOf_eq _ x.items (snapOf_alModify x.items k f hf)]; exact h2
+
+theorem foldl_alPut_nodup {β : Type} (inputs : List (String × List Int)) (g : List Int → β)
+    (m : List (String × β)) (hn : (m.map (·.1)).Nodup) :
+    ((inputs.foldl (fun items e => alPut items e.1 (g e.2)) m).map (·.1)).Nodup := by
+  induction inputs generalizing m with
+  | nil => exact hn
+  | cons e es ih => exact ih _ (alPut_nodup m e.1 _ hn)
+
 /-- every operation of the current code keeps "a cached index was built from the current data" -/
 theorem inv_step (st : State) (op : Op) (h : Inv st) : Inv (step st op).1 := by
   cases op with
@@ -454,6 +512,20 @@ theorem inv_step (st : State) (op : Op) (h : Inv st) : Inv (step st op).1 := by
     cases c with
     | none => exact ⟨fresh_none _, h.2⟩
     | some c => exact inv_setColl st c _ h (fresh_none _)
+  | updateMeta key md =>
+    simp only [step]; split
+    · exact ⟨fresh_alModify st.dflt key _ (fun _ => rfl) h.1, h.2⟩
+    · exact h
+  | removeMetaField key field =>
+    simp only [step]; split
+    · exact ⟨fresh_alModify st.dflt key _ (fun _ => rfl) h.1, h.2⟩
+    · exact h
+  | batchStore inputs =>
+    simp only [step]; split
+    · exact h
+    · split
+      · exact h
+      · exact ⟨fresh_none _, h.2⟩
 
 theorem inv_run (ops : List Op) (st : State) (h : Inv st) : Inv (run st ops) := by
   induction ops generalizing st with
@@ -535,6 +607,20 @@ theorem keysOK_step (st : State) (op : Op) (h : KeysOK st) : KeysOK (step st op)
     cases c with
     | none => exact ⟨h.1, h.2⟩
     | some c => exact keysOK_setColl st c _ h (keysOK_collOf st c h)
+  | updateMeta key md =>
+    simp only [step]; split
+    · exact ⟨by simp only [alModify_keys]; exact h.1, h.2⟩
+    · exact h
+  | removeMetaField key field =>
+    simp only [step]; split
+    · exact ⟨by simp only [alModify_keys]; exact h.1, h.2⟩
+    · exact h
+  | batchStore inputs =>
+    simp only [step]; split
+    · exact h
+    · split
+      · exact h
+      · exact ⟨foldl_alPut_nodup inputs (fun v => mkItem v []) _ h.1, h.2⟩
 
 theorem keysOK_run (ops : List Op) (st : State) (h : KeysOK st) : KeysOK (run st ops) := by
   induction ops generalizing st with
@@ -891,5 +977,135 @@ theorem current_of_mem_snapOf (items : Items) (hn : (items.map (·.1)).Nodup) (k
   simp only [Prod.mk.injEq] at heq
   obtain ⟨rfl, rfl⟩ := heq
   exact ⟨e.2, alGet_of_mem_nodup items e.1 e.2 hn he, rfl⟩
+
+
+/-! ### pagination -/
+
+theorem pageOf_take (α : Type) (L : List α) (k skip : Nat) (limit : Option Nat) :
+    pageOf skip limit (L.take (pagedK k skip limit)) = pageOf skip limit (L.take k) := by
+  cases limit with
+  | none =>
+    simp only [pagedK, Option.getD_none, pageOf]
+    rw [Nat.min_eq_right (Nat.le_add_left k skip)]
+  | some n =>
+    simp only [pagedK, Option.getD_some, pageOf, List.drop_take, List.take_take]
+    congr 1
+    omega
+
+/-! ### post-filter answers: sound, and exact when the oversample pool covers every candidate -/
+
+/-- the exact filtered ranking, of which every filtered answer is a part -/
+def filteredRanking (items : Items) (m : Metric) (q : List Int) (f : Filter) : List Cand :=
+  (rank m (candidates items m q (some f))).filter (·.pass)
+
+theorem filteredRanking_perm (items : Items) (m : Metric) (q : List Int) (f : Filter) :
+    (filteredRanking items m q f).Perm ((candidates items m q (some f)).filter (·.pass)) :=
+  (sortBy_perm _ _).filter _
+
+theorem filteredRanking_sorted (items : Items) (m : Metric) (q : List Int) (f : Filter) :
+    (filteredRanking items m q f).Pairwise (fun a b => candBetter m a b = true) :=
+  (sortBy_sorted _ (candBetter_total m) (candBetter_trans m) _).sublist List.filter_sublist
+
+theorem filteredRanking_keys_nodup (items : Items) (hn : (items.map (·.1)).Nodup) (m : Metric)
+    (q : List Int) (f : Filter) : ((filteredRanking items m q f).map (·.key)).Nodup := by
+  have p2 := (filteredRanking_perm items m q f).map (·.key)
+  have s3 : (((candidates items m q (some f)).filter (·.pass)).map (·.key)).Sublist (items.map (·.1)) :=
+    (List.filter_sublist.map _).trans (candidates_keys_sublist items m q (some f))
+  exact p2.nodup_iff.mpr (hn.sublist s3)
+
+theorem mem_filteredRanking (items : Items) (hn : (items.map (·.1)).Nodup) (m : Metric)
+    (q : List Int) (f : Filter) (c : Cand) (hc : c ∈ filteredRanking items m q f) :
+    ∃ it, alGet items c.key = some it ∧ (vecOf it).length = q.length ∧
+      c.score = score m q (vecOf it) ∧ evalFilter it.md f = true := by
+  have h1 := (filteredRanking_perm items m q f).subset hc
+  obtain ⟨h2, h3⟩ := List.mem_filter.mp h1
+  obtain ⟨it, hmem, hl, hs, hp⟩ := mem_candidates items m q (some f) c h2
+  refine ⟨it, alGet_of_mem_nodup items c.key it hn hmem, hl, hs, ?_⟩
+  have : c.pass = true := by simpa using h3
+  rw [hp] at this
+  exact this
+
+/-- the post-filter answer `((ranking.take cut).filter pass).take k` is a sub-list (same order)
+    of the exact filtered ranking -/
+theorem postfilter_answer_sublist (items : Items) (m : Metric) (q : List Int) (f : Filter) (cut k : Nat) :
+    (SearchOut.answer (.ranked m (rank m (candidates items m q (some f))) cut k)).Sublist
+      (filteredRanking items m q f) := by
+  simp only [SearchOut.answer, filteredRanking]
+  exact (List.take_sublist k _).trans ((List.take_sublist cut _).filter _)
+
+/-- when the oversample pool is at least as large as the candidate set, nothing is cut off and
+    the post-filter answer IS the exact top-k -/
+theorem postfilter_exact (items : Items) (hn : (items.map (·.1)).Nodup) (m : Metric) (q : List Int)
+    (f : Filter) (cut k : Nat) (hcut : (candidates items m q (some f)).length ≤ cut) :
+    IsTopK items m q (some f) k
+      (SearchOut.answer (.ranked m (rank m (candidates items m q (some f))) cut k)) := by
+  have hlen : (rank m (candidates items m q (some f))).length ≤ cut := by
+    rw [rank, (sortBy_perm _ _).length_eq]; exact hcut
+  have hans : SearchOut.answer (.ranked m (rank m (candidates items m q (some f))) cut k)
+      = (filteredRanking items m q f).take k := by
+    simp only [SearchOut.answer, filteredRanking, List.take_of_length_le hlen]
+  rw [hans]
+  have hp := filteredRanking_perm items m q f
+  have hs := filteredRanking_sorted items m q f
+  refine ⟨?_, hs.sublist (List.take_sublist k _), ⟨(filteredRanking items m q f).drop k, ?_, ?_⟩, ?_, ?_⟩
+  · rw [List.length_take, hp.length_eq]
+  · rw [List.take_append_drop]; exact hp
+  · have h2 : ((filteredRanking items m q f).take k ++ (filteredRanking items m q f).drop k).Pairwise
+        (fun a b => candBetter m a b = true) := by rw [List.take_append_drop]; exact hs
+    exact (List.pairwise_append.mp h2).2.2
+  · intro c hc
+    obtain ⟨it, h1, h2, h3, h4⟩ := mem_filteredRanking items hn m q f c (List.mem_of_mem_take hc)
+    exact ⟨it, h1, h2, h3, h4⟩
+  · exact (filteredRanking_keys_nodup items hn m q f).sublist ((List.take_sublist k _).map _)
+
+/-! ### `update_metadata`: new fields override, the others are kept -/
+
+theorem alGet_replace_ne {β : Type} (m : List (String × β)) (k k' : String) (v : β) (h : k' ≠ k) :
+    alGet (m.map (fun e => if e.1 == k then (k, v) else e)) k' = alGet m k' := by
+  induction m with
+  | nil => rfl
+  | cons e es ih =>
+    simp only [alGet, List.map_cons, List.find?_cons] at ih ⊢
+    have hk' : (k == k') = false := by simpa using (Ne.symm h)
+    by_cases he : (e.1 == k) = true
+    · have : e.1 = k := by simpa using he
+      have hek' : (e.1 == k') = false := by rw [this]; exact hk'
+      simp only [he, ite_true, hk', hek']
+      exact ih
+    · simp only [he, Bool.false_eq_true, ite_false]
+      by_cases hek' : (e.1 == k') = true
+      · simp [hek']
+      · simp only [hek']; exact ih
+
+theorem alGet_alPut_ne {β : Type} (m : List (String × β)) (k k' : String) (v : β) (h : k' ≠ k) :
+    alGet (alPut m k v) k' = alGet m k' := by
+  simp only [alPut]
+  split
+  · exact alGet_replace_ne m k k' v h
+  · have hk' : (k == k') = false := by simpa using (Ne.symm h)
+    simp only [alGet, List.find?_append, List.find?_cons, hk', List.find?_nil]
+    cases m.find? (fun e => e.1 == k') <;> rfl
+
+theorem alGet_mergeMeta (old new : List (String × Int)) (hn : (new.map (·.1)).Nodup) (f : String) :
+    alGet (mergeMeta old new) f = (alGet new f).or (alGet old f) := by
+  induction new generalizing old with
+  | nil => simp [mergeMeta, alGet]
+  | cons e es ih =>
+    simp only [List.map_cons, List.nodup_cons] at hn
+    have hstep : mergeMeta old (e :: es) = mergeMeta (alPut old e.1 e.2) es := rfl
+    rw [hstep, ih _ hn.2]
+    by_cases hf : e.1 = f
+    · subst hf
+      have hnone : alGet es e.1 = none := by
+        simp only [alGet, Option.map_eq_none_iff, List.find?_eq_none]
+        intro x hx hxe
+        have : x.1 = e.1 := by simpa using hxe
+        exact hn.1 (this ▸ List.mem_map.mpr ⟨x, hx, rfl⟩)
+      rw [hnone, alGet_alPut_self]
+      simp [alGet]
+    · have h1 : alGet (alPut old e.1 e.2) f = alGet old f := alGet_alPut_ne old e.1 f e.2 (Ne.symm hf)
+      rw [h1]
+      have hef : (e.1 == f) = false := by simpa using hf
+      simp [alGet, List.find?_cons, hef]
 
 end Neumann.Vec
